@@ -297,4 +297,9 @@ def takeI (v idx : List Int) : List Int := idx.map (fun i => get1 v i)
 /-- `np.prod` of an integer vector -/
 def prodI (l : List Int) : Int := l.foldl (· * ·) 1
 
+/-! ### vocabulary of the translated `ADD.__call__` (`GenA`) -/
+
+/-- `a[i, j, k]` on a 3-D array -/
+def get3 [Inhabited β] (a : List (List (List β))) (i j k : Int) : β := get1 (get1 (get1 a i) j) k
+
 end Np
